@@ -8,7 +8,7 @@ theorem ac_generate_arpc_2 (sk q csu : Bytes) (p : Option Bytes) : Gen.ac.genera
   unfold Gen.ac.generate_arpc_2 generateArpc2
   simp only [mac_mac3, bind, Except.bind, pure, Except.pure]
   repeat (first | rfl | split)
-  all_goals simp_all
+  all_goals first | (simp_all; done) | slice_forms
 
 /-- **C02 (method 2) about the translated source** -/
 theorem source_generate_arpc_2 (sk arqc csu : Bytes) (pad : Option Bytes) (hsk : sk.length = 16) (hq : arqc.length = 8)
